@@ -112,6 +112,7 @@ def run_history(ctx, k, first, start_main, kind, files, nodirs=False,
     end = bool(ctx.bool('enforce_new_defaults')) if kind == 'deprecated' \
         else True
     env = common.PolicyEnv()
+    env.linked = bool(ctx.bool('dir_entries_are_symlinks'))
     try:
         if not nodirs:
             env.mkdir('d1')
@@ -200,6 +201,7 @@ def run_long(ctx, seed, index, steps, kind):
     end = bool(ctx.bool('enforce_new_defaults')) if kind == 'deprecated' \
         else True
     env = common.PolicyEnv()
+    env.linked = bool(ctx.bool('dir_entries_are_symlinks'))
     try:
         env.mkdir('d1')
         env.mkdir('d2')
